@@ -118,18 +118,17 @@ PROP_INFO["C10"] = {
 
 # ----------------------------------------------------------------------------- C14
 _C14F = ["<serde_json::Value as Queryable>::extension_custom"]
-_C14_PENDING = [
-    H("queryable", "c14_in_" + k, funcs=_C14F, symbolic="x payload; list [int, 1-byte string, [int]] truncated to n in 0..3, all payloads",
-      shape="x kind " + k, est=30) for k in ("int", "str", "null", "bool", "nested")
+PROPS["C14"] = [
+    H("queryable", "c14_in_" + k, funcs=_C14F, symbolic="x payload, list payloads (any i64, any ASCII byte)", shape="list [int, 1-byte string, [int]] truncated to n; x kind/n = " + k, est=15, timeout=300)
+    for k in ("int_n0", "int_n1", "int_n3", "str_n1", "str_n2", "str_n3", "null_n3")
 ] + [
-    H("queryable", "c14_sets_ints_ints", funcs=_C14F, symbolic="A: 0..2 ints, B: 0..3 ints (any i64)", shape="int arrays", est=40),
-    H("queryable", "c14_sets_ints_mixed", funcs=_C14F, symbolic="A: 0..2 ints, B: [int, string, [int]] truncated to 0..3", shape="int array vs mixed array", est=40),
-    H("queryable", "c14_non_array", funcs=_C14F, symbolic="array of 0..3 ints, scalar int", shape="non-array / missing arguments for all five functions", est=40),
+    H("queryable", "c14_non_array", funcs=_C14F, symbolic="payloads", shape="non-array / missing arguments for all five functions", est=15, timeout=300),
 ]
 PROP_INFO["C14"] = {
-    "bounds": "lists of 0..3 elements (ints any i64, 1-byte ASCII strings, one nested 1-element array), x of kind int/string/null/bool/nested array; A of 0..2 ints vs B of 0..3; non-array and missing arguments",
-    "outside": ["lists longer than 3", "objects as elements (serde_json::Map is a BTreeMap: out of reach)", "float elements / mixed int-float membership (unspecified by the crate's documentation)",
-                "function-call parsing (grammar)"],
+    "bounds": "PARTIAL: in / nin for x of kind int, string, null against lists [int, 1-byte string, [int]] of 0..3 elements (all payloads symbolic), complement law nin = not in; for all five functions: a non-array or missing argument gives a non-Boolean result (so the test is false)",
+    "outside": ["set semantics of any_of / none_of / subset_of and nested-array membership: serde_json::Value's derived PartialEq reached through nested iterator closures makes CBMC explore its BTreeMap arms (measured: no verdict in 300 s even for empty arrays) - not covered",
+                "objects as elements (BTreeMap)", "float elements", "argument evaluation in test_function::custom (FlattenCompat over heap vectors: no verdict in 900 s)", "function-call parsing (grammar)"],
+    "level_text": "PARTIAL claim: bounded model checking of <serde_json::Value as Queryable>::extension_custom for in/nin and for ill-formed argument lists; the three set functions' membership semantics are outside reach.",
 }
 
 # ----------------------------------------------------------------------------- C05
